@@ -157,7 +157,9 @@ func ShareWithConfig[T any](config ShareConfig[T]) func(Observable[T]) Observabl
 				)
 
 				// Subscription between the source and the subject.
-				sourceSubscription.AddUnsubscribable(
+				// currentSourceSubscription is the subscription created above, under the lock:
+				// the shared variable may already have been reset by a terminal notification
+				currentSourceSubscription.AddUnsubscribable(
 					source.SubscribeWithContext(subscriberCtx, proxy),
 				)
 			}
